@@ -9,6 +9,7 @@ import (
 	"os"
 	"path/filepath"
 	"sort"
+	"strings"
 	"time"
 
 	"github.com/thomasjungblut/go-sstables/recordio"
@@ -132,7 +133,9 @@ func tblPairs(c tblCase) []kv {
 			// non-empty values with a few empty / nil ones in between (tombstones of a database): the damage oracle
 			// judges the keys with non-empty values only, the empty ones are there to be walked over
 			if r.Intn(4) == 0 {
-				v = pick(r, []byte(nil), []byte{})
+				// mostly empty rather than nil: a nil record has no payload at all, an empty one has the compressed form
+				// of nothing (three bytes under LZW that one flipped bit turns into "one zero byte")
+				v = pick(r, []byte(nil), []byte{}, []byte{}, []byte{})
 			}
 		}
 		out = append(out, kv{k, v})
@@ -469,6 +472,9 @@ func tblControl(c *Ctx, tc tblCase, tape *simrt.Tape) (vs []tblV, evals int) {
 // ---------------- damage arm (C09) ----------------
 
 // readEverything reads the table through every access path; returns a description of the first wrong value served without error.
+// emptyTag starts the description of a violation that concerns a key written with an empty or nil value
+const emptyTag = "[empty-value-key] "
+
 func readEverything(rd sstables.SSTableReaderI, pairs []kv) string {
 	want := map[string][]byte{}
 	for _, p := range pairs {
@@ -476,7 +482,12 @@ func readEverything(rd sstables.SSTableReaderI, pairs []kv) string {
 	}
 	for _, p := range pairs {
 		if len(p.v) == 0 {
-			continue // empty and nil values carry no checksum by format design: outside the statement
+			// empty and nil values carry no value checksum, but the record header (which states a payload size of zero)
+			// is protected: such a key must still read as empty or nil
+			if v, err := rd.Get(p.k); err == nil && len(v) != 0 {
+				return emptyTag + fmt.Sprintf("Get(%x) = %s without error, written an empty value", headBytes(p.k, 8), recDesc(v))
+			}
+			continue
 		}
 		v, err := rd.Get(p.k)
 		if err == nil && !bytes.Equal(v, p.v) {
@@ -495,6 +506,9 @@ func readEverything(rd sstables.SSTableReaderI, pairs []kv) string {
 			w, ok := want[string(k)]
 			if !ok {
 				return fmt.Sprintf("%s returned key %x that was never written (value %s)", name, headBytes(k, 8), recDesc(v))
+			}
+			if len(w) == 0 && len(v) != 0 {
+				return emptyTag + fmt.Sprintf("%s returned %s for key %x without error, written an empty value", name, recDesc(v), headBytes(k, 8))
 			}
 			if len(w) > 0 && !bytes.Equal(v, w) {
 				return fmt.Sprintf("%s returned %s for key %x without error, written %s", name, recDesc(v), headBytes(k, 8), recDesc(w))
@@ -517,7 +531,14 @@ func readEverything(rd sstables.SSTableReaderI, pairs []kv) string {
 func tblDamage(c *Ctx, tc tblCase, tape *simrt.Tape) (vs []tblV, evals int) {
 	dir := freshDir(c, "tbl")
 	defer os.RemoveAll(dir)
-	add := func(sig, detail string) { vs = append(vs, tblV{sig, detail}) }
+	add := func(sig, detail string) {
+		for _, v := range vs {
+			if v.sig == sig {
+				return
+			}
+		}
+		vs = append(vs, tblV{sig, detail})
+	}
 	pairs := tblPairs(tc)
 	if len(pairs) == 0 {
 		return
@@ -568,7 +589,15 @@ func tblDamage(c *Ctx, tc tblCase, tape *simrt.Tape) (vs []tblV, evals int) {
 				continue
 			}
 			if d != "" {
-				add("damage-served-as-data|"+mode+"|"+whatKind(what), fmt.Sprintf("%s, %s: %s", what, mode, d))
+				sig := "damage-served-as-data|" + mode + "|" + whatKind(what)
+				if strings.HasPrefix(d, emptyTag) {
+					sig += "|empty-value-key"
+				}
+				add(sig, fmt.Sprintf("%s, %s: %s", what, mode, d))
+				if strings.HasSuffix(sig, "|swapped|empty-value-key") {
+					// (a recorded finding: the enumeration of this table goes on, so that it cannot hide anything else)
+					continue
+				}
 				return false
 			}
 		}
@@ -681,7 +710,11 @@ func tblDamage(c *Ctx, tc tblCase, tape *simrt.Tape) (vs []tblV, evals int) {
 				panic(err)
 			}
 			if d != "" {
-				add("damage-served-as-data|live-verify-on-read|byte-altered", fmt.Sprintf("byte at data.rio offset %d changed %02x -> %02x while a verify-on-read reader is open: %s", pos, orig[pos], v, d))
+				sig := "damage-served-as-data|live-verify-on-read|byte-altered"
+				if strings.HasPrefix(d, emptyTag) {
+					sig += "|empty-value-key"
+				}
+				add(sig, fmt.Sprintf("byte at data.rio offset %d changed %02x -> %02x while a verify-on-read reader is open: %s", pos, orig[pos], v, d))
 				return
 			}
 		}
